@@ -182,7 +182,7 @@ class Walker:
         walk(md)
         return {"attrs": self.attrs(m), "file": m.source_file_name,
                 "types": [self.typedef(t, bounds) for t in m.type],
-                "refs": refs, "gated": [atree(e) for e in gate_roots(m)] if bounds else []}
+                "refs": refs, "gated": [[synthetic(e), atree(e)] for e in gate_roots(m)] if bounds else []}
 
     def program(self, bounds=True):
         return [self.module(m, bounds) for m in self.ir.module]
@@ -225,6 +225,38 @@ def _ext(s):
     if s == "-infinity":
         return "-inf"
     return str(int(s))
+
+
+def synthetic(e):
+    """Is the error the gate would report for this root hidden by `error.split_errors`?  An
+    error is hidden iff its location is synthetic AND truthy: `error.location_or_default`
+    replaces a falsy (all-zero) location, synthetic or not, by a fresh non-synthetic one (that
+    such errors are shown to the user at 0:0-0:0 is C16's business).  The gate reports at the
+    lowest failing node, so a root whose nodes differ in that flag is only in scope when no
+    node can fail (every integer node fits int64)."""
+    flags = set()
+    can_fail = []
+
+    def go(x):
+        loc = ir_data_utils.reader(x).source_location
+        flags.add(bool(loc) and bool(loc.is_synthetic))
+        if x.type.which_type == "integer":
+            it = x.type.integer
+            try:
+                ok = -(2 ** 63) <= int(it.minimum_value) and int(it.maximum_value) <= 2 ** 63 - 1
+            except ValueError:
+                ok = False
+            if not ok:
+                can_fail.append(x)
+        if x.which_expression == "function":
+            for a in x.function.args:
+                go(a)
+    go(e)
+    if len(flags) != 1:
+        if can_fail:
+            raise OutOfScope("gated expression with synthetic and natural parts")
+        return False
+    return flags.pop()
 
 
 def atree(e):
